@@ -37,6 +37,7 @@ type vfSideCfg struct {
 	Ufrag, Pwd   string
 	NilDisc      bool // leave DisconnectedTimeout unset: the documented default applies (5 s, lite 10 s); DiscTimeout is set to it
 	NilFail      bool // leave FailedTimeout unset: default 25 s; FailTimeout is set to it
+	AutoRenom    bool // WithAutomaticRenomination (1 ns interval): the controlling agent renominates on its own during check rounds
 	TCPPassive   bool // also gather ICE-TCP passive host candidates through the simulated TCP mux (active TCP disabled)
 }
 
@@ -239,6 +240,9 @@ func (s *vfSession) newSide(cfg vfSideCfg) (*vfSide, error) {
 	}
 	if cfg.CheckPrio {
 		opts = append(opts, WithEnableUseCandidateCheckPriority())
+	}
+	if cfg.AutoRenom {
+		opts = append(opts, WithAutomaticRenomination(time.Nanosecond))
 	}
 	a, err := newAgentFromConfig(ac, opts...)
 	if err != nil {
